@@ -29,6 +29,12 @@ PROPERTY = "C06"
 LEVEL = "fault_enumeration"
 SHARDS = {"quick": 4, "thorough": 16}
 SHARD_TIMEOUT = {"quick": 900, "thorough": 3400}
+try:
+    import baize.wsgi.responses as _R
+    _LIBRARY_POOL = _R.SendEventResponse.thread_pool
+except Exception:  # noqa
+    _LIBRARY_POOL = None
+
 REQUIRED = ["wsgi-rendezvous", "wsgi-yield-injection", "asgi-virtual-time", "cleanup-exactly-once", "no-leaked-thread", "no-pending-task",
             "delivered-prefix", "bounded-return", "deadlock-analysis-armed", "producer-steps-after-close", "queued-relay", "busy-producer", "asgi-fault-combinations", "overlapped-clients", "large-chunks", "pool-after-early-closes", "scope-variants"]
 RULE = ("WSGI SendEventResponse rendezvous scenarios: producer length n in 0..4 x close point k (before first next, after item 1..n, after exhaustion) x producer state at "
@@ -37,7 +43,7 @@ RULE = ("WSGI SendEventResponse rendezvous scenarios: producer length n in 0..4 
         "SendEventResponse on a virtual-time grid: n in 0..4 x producer delay {0,.5,1.5,4} x send delay {0,.5} x disconnect at {none, {0,.5,1,1.5,2,3}+-eps} x raise point "
         "{none,0,1} x async-generator / plain async-iterable producers. Non-trivial = the close/disconnect happens before the producer is exhausted; distinct = scenario "
         "tuple (rendezvous/grid: by construction) or the observed cross-thread line interleaving (yield injection).")
-RULE += ' Also: streaming responses answering HEAD / POST / OPTIONS / DELETE requests (the producer is consumed or closed, never left open); producers whose cleanup takes a moment (when close() has returned, the cleanup has finished); field-less events and zero-length chunks as producer steps, producers whose cleanup raises, iterator-object and iterable-object producers with their own close(), a relay still queued behind a saturated pool, ASGI send() failures combined with raising cleanup, endless producers that never await (step cap 5000). Async producers whose cleanup awaits for 0.3 / 2.5 / 7 ping intervals (it runs to its end); one event dict kept by the producer, brought up to date after a pause and yielded again. Event-stream ping intervals of 0.05 / 0.2 / 0.5 / 1.6 / 2.5 s (the interval asked for bounds the return).'
+RULE += ' Also: streaming responses answering HEAD / POST / OPTIONS / DELETE requests (the producer is consumed or closed, never left open); producers whose cleanup takes a moment (when close() has returned, the cleanup has finished); field-less events and zero-length chunks as producer steps, producers whose cleanup raises, iterator-object and iterable-object producers with their own close(), a relay still queued behind a saturated pool, ASGI send() failures combined with raising cleanup, endless producers that never await (step cap 5000). Async producers whose cleanup awaits for 0.3 / 2.5 / 7 ping intervals (it runs to its end); one event dict kept by the producer, brought up to date after a pause and yielded again. Event-stream ping intervals of 0.05 / 0.2 / 0.5 / 1.6 / 2.5 s (the interval asked for bounds the return). Producers that raise a falsy exception object; 2-5 event streams open at once on the relay pool the library ships with (none starves while another is open).'
 ASSUMPTIONS = [
     "the producer's cleanup marker is synchronous (a finally that itself awaits can be cut short by asyncio cancellation: an observation, never used for a verdict)",
     "closing a WSGI response iterable on which next() was never called starts nothing and carries no expectations",
@@ -668,6 +674,60 @@ def overlapped_clients(ctx, n, k, ping, first_ends):
     pool.shutdown(wait=False)
 
 
+def library_pool():
+    """the relay pool the library itself creates: the class attribute as it was when this module was imported (no scenario had run yet)"""
+    return _LIBRARY_POOL
+
+
+def streams_on_the_library_pool(ctx, n):
+    """n event streams are open at the same time on the pool the library ships with (no pool of the harness): the first stream's producer
+    waits until every other stream has delivered its first event - each stream needs a relay worker of its own while it is open"""
+    import threading
+
+    import baize.wsgi.responses as R
+    from baize import wsgi
+    pool = library_pool()
+    if pool is None or getattr(pool, "_shutdown", False):
+        ctx.count("library-pool:not-available(not explored)")
+        return
+    got = [threading.Event() for _ in range(n)]
+    out = {}
+    late = []
+
+    def producer(j):
+        if j == 0:
+            for k, e in enumerate(got[1:], 1):
+                if not e.wait(4):
+                    late.append(k)  # stream k has delivered nothing although it has been open for seconds
+        yield {"data": f"first-{j}", "id": "0"}
+        yield {"data": f"second-{j}", "id": "1"}
+
+    def client(j):
+        resp = wsgi.SendEventResponse(producer(j), ping_interval=0.05)
+        resp.thread_pool = pool
+        body = b""
+        for chunk in resp(drivers.to_environ(drivers.Req(path=b"/%d" % j)), lambda s, h, e=None: None):
+            body += chunk
+            if b"data: first" in body:
+                got[j].set()
+        out[j] = body
+    ts = [threading.Thread(target=client, args=(j,), daemon=True, name=f"c06-libpool-client{j}") for j in range(n)]
+    for t in ts:
+        t.start()
+    for t in ts:
+        t.join(20)
+    case = {"scenario": "several event streams open at once on the pool the library ships with", "streams": n}
+    ctx.mon("library-pool")
+    if any(t.is_alive() for t in ts):
+        ctx.violation("wsgi-sse|library-pool|a-stream-never-ends", case, repr({j: out.get(j, b"<running>")[:60] for j in range(n)}))
+        return
+    starved = sorted(set(late) | {j for j in range(1, n) if not got[j].is_set()})
+    if starved:
+        ctx.violation("wsgi-sse|library-pool|stream-starved-while-another-is-open", case, f"streams {starved} delivered nothing while stream 0 was open")
+    elif any(b"data: second-%d" % j not in out.get(j, b"") for j in range(n)):
+        ctx.violation("wsgi-sse|library-pool|events-lost", case, repr({j: out.get(j)[-80:] for j in range(n)}))
+
+
 def pool_after_early_closes(ctx, closes):
     """the relay threads come from one small pool that lives as long as the process: after a series of clients that left early
     a later client must still be served (no worker may stay occupied by an abandoned stream)"""
@@ -1296,6 +1356,7 @@ def run(ctx):
             ctx.case(("queued-relay", ping))
         for closes in (3, 8):
             pool_after_early_closes(ctx, closes)
+            streams_on_the_library_pool(ctx, 2 + closes % 4)
             ctx.case(("pool-after-early-closes", closes))
         for n, k in ((3, 1), (4, 2), (6, 0), (5, 5), (30, 3)):
             for first_ends in ("closed-early", "exhausted"):
@@ -1428,6 +1489,8 @@ def replay(ctx, case):
         wsgi_stream_response(ctx, case["n"], case["close_after"], case["raise_at"], case.get("producer", "generator"))
     elif case.get("scenario", "").startswith("one worker pool"):
         pool_after_early_closes(ctx, case["early_closes"])
+    elif case.get("scenario", "").startswith("several event streams open at once"):
+        streams_on_the_library_pool(ctx, case["streams"])
     elif case.get("scenario", "").startswith("one response object, two overlapping"):
         overlapped_clients(ctx, case["n"], case["first_client_closes_after"], case["ping"], case["first_ends"])
     elif "scenario" in case:
